@@ -33,6 +33,10 @@ type c07p struct {
 	// takes out first (with a truly unbuffered channel the hand-over and the receiver's
 	// bookkeeping are two steps, which would blur "has been answered")
 	unbuf bool
+	// grp > 0: rows are partitioned (every batch has a row in partition x, every other batch a
+	// second row in partition y) and MaxRowGroupRows = grp, so a partition-level limit can
+	// trigger a flush while another partition holds fewer rows
+	grp int
 }
 
 func (p c07p) name() string {
@@ -42,6 +46,9 @@ func (p c07p) name() string {
 	}
 	if p.unbuf {
 		n += "-unbuf"
+	}
+	if p.grp > 0 {
+		n += fmt.Sprintf("-grp%d", p.grp)
 	}
 	return n
 }
@@ -78,6 +85,10 @@ func c07Root(p c07p) func() {
 		if p.rows > 0 {
 			cfg.MaxBufferedRows = p.rows
 		}
+		if p.grp > 0 {
+			cfg.PartitionFunc = func(r map[string]any) string { s, _ := r["p"].(string); return s }
+			cfg.MaxRowGroupRows = p.grp
+		}
 		eng, err := bs.NewBloomSearchEngine(cfg, meta, data)
 		if err != nil {
 			vapi.Fail("config: %v", err)
@@ -112,7 +123,11 @@ func c07Root(p c07p) func() {
 					b := mk(fmt.Sprintf("E%d", len(batches)), 0)
 					batches = append(batches, b)
 				default:
-					b := mk(op, 1)
+					n := 1
+					if p.grp > 0 && len(byName)%2 == 0 {
+						n = 2 // this batch also has a row in the second partition
+					}
+					b := mk(op, n)
 					batches = append(batches, b)
 					byName[op] = b
 				}
@@ -120,8 +135,12 @@ func c07Root(p c07p) func() {
 		}
 		rowsOf := func(b *c07batch) []map[string]any {
 			rows := []map[string]any{}
-			for _, id := range b.ids {
-				rows = append(rows, map[string]any{"id": id})
+			for i, id := range b.ids {
+				r := map[string]any{"id": id}
+				if p.grp > 0 {
+					r["p"] = []string{"x", "y"}[i%2]
+				}
+				rows = append(rows, r)
 			}
 			return rows
 		}
@@ -297,6 +316,8 @@ func init() {
 				{rows: 1, first: "A F B F", gate: "CreateFile", tokens: 2, ib: 1},
 				// a Flush queued behind an in-flight flush while another caller's batch arrives
 				{rows: 1, first: "A F", second: "B", gate: "CreateFile", tokens: 2, ib: 1},
+				// a partition-level limit fires while another partition holds fewer rows
+				{rows: 0, first: "A B", second: "", ib: 2, grp: 2},
 				// unbuffered done channels: an answer is handed over only when its receiver arrives
 				{rows: 2, second: "B+Flush", ib: 2, unbuf: true},
 				{rows: 0, second: "Flush", ib: 1, unbuf: true},
@@ -314,6 +335,16 @@ func init() {
 			for _, rows := range []int{1, 2, 0} {
 				for _, second := range []string{"B+Flush", "Flush", "B"} {
 					ps = append(ps, c07p{rows: rows, second: second, ib: 2, unbuf: true}, c07p{rows: rows, second: second, gate: "Update", ib: 1, unbuf: true})
+				}
+			}
+			for _, first := range []string{"A B", "A B C", "A B F C"} {
+				for _, second := range []string{"", "Flush", "D"} {
+					sec := second
+					if sec == "D" {
+						sec = "B"
+						first = strings.ReplaceAll(strings.ReplaceAll(first, "C", "D"), "B", "C")
+					}
+					ps = append(ps, c07p{rows: 0, first: first, second: sec, ib: 2, grp: 2}, c07p{rows: 4, first: first, second: sec, gate: "Update", tokens: 2, ib: 1, grp: 2})
 				}
 			}
 			ps = append(ps, c07p{rows: 1, first: "A F", second: "B+Flush", gate: "CreateFile", tokens: 2, ib: 2},
